@@ -4,6 +4,7 @@
    so the harness gets all of them from one call. *)
 From Tx Require Import Lib.Base Lib.Sexp.
 From Tx Require Model.OpsC18 Model.OpsC01 Model.OpsSpec.
+From Tx Require Model.OpsC16.
 Local Open Scope Z_scope.
 
 Definition run_op (s : sexp) : sexp :=
@@ -13,6 +14,7 @@ Definition run_op (s : sexp) : sexp :=
       | 1 => OpsC01.op args
       | 2 => OpsSpec.op args
       | 18 => OpsC18.op args
+      | 16 => OpsC16.op args
       | _ => bad
       end
   | _ => bad
